@@ -218,8 +218,10 @@ func (e *Engine) isMatchBoundedBacktracker(haystack []byte) bool {
 		if !e.asciiBoundedBacktracker.CanHandle(len(haystack)) {
 			return e.pikevm.IsMatch(haystack)
 		}
-		// Use ASCII backtracker directly (no pooled state needed - it's independent)
-		return e.asciiBoundedBacktracker.IsMatch(haystack)
+		// The ASCII backtracker is shared by all goroutines: use pooled state.
+		state := e.getSearchState()
+		defer e.putSearchState(state)
+		return e.asciiBoundedBacktracker.IsMatchWithState(haystack, state.backtracker)
 	}
 
 	if !e.boundedBacktracker.CanHandle(len(haystack)) {
